@@ -40,6 +40,7 @@ type ccObs struct {
 	Ran     []string       `json:"ran"`
 	Wrong   []string       `json:"wrong"`
 	Reached bool           `json:"reached"`
+	CfgSame bool           `json:"config_same"`
 	Calls   map[string]int `json:"calls"`
 	Bad     map[string]int `json:"bad"`
 	Note    string         `json:"note"`
@@ -303,7 +304,7 @@ func (Concur) Run(c *orch.Case) *orch.Outcome {
 	}
 	ccInbound()
 	sched.Install()
-	o := &ccObs{Calls: map[string]int{}, Bad: map[string]int{}, Ran: []string{}, Wrong: []string{}}
+	o := &ccObs{Calls: map[string]int{}, Bad: map[string]int{}, Ran: []string{}, Wrong: []string{}, CfgSame: true}
 	if in.Mode == "parked" {
 		ccParked(&in, o)
 	} else {
@@ -332,6 +333,13 @@ func ccParked(in *ccInput, o *ccObs) {
 	if in.Gate == "sc.rlock" {
 		sp.SigningContext() // the context exists already: a is held before the read-locked look-up
 	}
+	before := cfgDigest(sp)
+	defer func() {
+		if after := cfgDigest(sp); after != before {
+			o.CfgSame = false
+			o.Note += "configuration of the provider changed: " + diffDigest(before, after) + "; "
+		}
+	}()
 	run := sched.NewRun(1)
 	run.Timeout = 20 * time.Second
 	var noteA string
@@ -378,6 +386,13 @@ func ccStress(in *ccInput, o *ccObs, seed int64) {
 		g = 2 * len(ops)
 	}
 	shared := ccSP()
+	before := cfgDigest(shared)
+	defer func() {
+		if after := cfgDigest(shared); in.Shared && after != before {
+			o.CfgSame = false
+			o.Note += "configuration of the shared provider changed: " + diffDigest(before, after) + "; "
+		}
+	}()
 	sched.YieldAtPoints.Store(true)
 	defer sched.YieldAtPoints.Store(false)
 	var mu sync.Mutex
@@ -412,6 +427,20 @@ func ccStress(in *ccInput, o *ccObs, seed int64) {
 		}(j)
 	}
 	wg.Wait()
+}
+
+func diffDigest(a, b string) string {
+	as, bs := strings.Split(a, ";"), strings.Split(b, ";")
+	for i := range as {
+		if i >= len(bs) || as[i] != bs[i] {
+			other := ""
+			if i < len(bs) {
+				other = bs[i]
+			}
+			return as[i] + " -> " + other
+		}
+	}
+	return "(longer)"
 }
 
 func (Concur) Corrupt(c *orch.Case, o *orch.Outcome) (any, string, bool) {
